@@ -142,8 +142,8 @@ package avro
 //@ func (fixedCodec).Skip
 //@   implements Codec.Skip
 //@   let i0 := r.i, n := len(r.buf)
-//@   requires wfRB(r) && f.Size >= 0
-//@   ensures [C04,C06] (f.Size <= n - i0) <==> err == nil
+//@   requires wfRB(r)
+//@   ensures [C04,C06] (0 <= f.Size && f.Size <= n - i0) <==> err == nil
 //@   ensures [C04] err == nil ==> r.i == i0 + f.Size
 //@   ensures [C04,C06] err != nil ==> r.i == i0
 //@   modifies r.i
@@ -392,15 +392,15 @@ package avro
 //@ type floatCodec[T] for T in float32,float64 : typed = true ; dsz = sizeof(T) ; wfc = true ; cend(b, i) = i + sizeof(T) ; wfval(p) = rdable(p, sizeof(T))
 //@ type Float32DoubleCodec : typed = true ; dsz = 4 ; wfc = true ; cend(b, i) = i + 8 ; wfval(p) = rdable(p, 4)
 //@ type BoolCodec : typed = true ; dsz = 1 ; wfc = true ; cend(b, i) = i + 1 ; wfval(p) = rdable(p, 1)
-//@ type *fixedCodec : typed = true ; dsz = this.Size ; wfc = this != nil && 0 <= this.Size && this.Size < 1<<40 ; cend(b, i) = i + this.Size ; wfval(p) = this.Size == 0 || rdable(p, this.Size)
-//@ type fixedCodec : typed = true ; dsz = this.Size ; wfc = 0 <= this.Size && this.Size < 1<<40 ; cend(b, i) = i + this.Size ; wfval(p) = this.Size == 0 || rdable(p, this.Size)
+//@ type *fixedCodec : typed = 0 <= this.Size && this.Size < 1<<40 ; dsz = this.Size ; wfc = this != nil ; cend(b, i) = i + this.Size ; wfval(p) = this.Size == 0 || rdable(p, this.Size)
+//@ type fixedCodec : typed = 0 <= this.Size && this.Size < 1<<40 ; dsz = this.Size ; wfc = true ; cend(b, i) = i + this.Size ; wfval(p) = this.Size == 0 || rdable(p, this.Size)
 //@ type BytesCodec : typed = true ; dsz = 24 ; wfc = true ; cend(b, i) = vend(b, i) + int(vval(b, i)) ; wfval(p) = rdable(p, 24) && wfslice(membytes(p))
 //@ type StringCodec : typed = true ; dsz = 16 ; wfc = true ; cend(b, i) = vend(b, i) + int(vval(b, i)) ; wfval(p) = rdable(p, 16) && wfslice(memstr(p))
 //@ type nullCodec : typed = true ; dsz = 0 ; wfc = true ; cend(b, i) = i ; wfval(p) = true
 
 // ---------------------------------------------------------------- union.go (Avro: a union is encoded as a long branch index followed by the branch value)
 
-//@ type *unionOneAndNullCodec : typed = typed(this.codec) ; dsz = dsz(this.codec) ; wfc = this != nil && this.codec != nil && wfc(this.codec) && this.nonNull <= 1 && 0 <= dsz(this.codec) ; \
+//@ type *unionOneAndNullCodec : typed = typed(this.codec) && 0 <= dsz(this.codec) ; dsz = dsz(this.codec) ; wfc = this != nil && this.codec != nil && wfc(this.codec) && this.nonNull <= 1 ; \
 //@      cend(b, i) = (b[i] >> 1) == this.nonNull ? cend(this.codec, b, i+1) : i+1 ; wfval(p) = wfval(this.codec, p)
 //@ type *unionNullString : typed = true ; dsz = 16 ; wfc = this != nil && this.nonNull <= 1 ; \
 //@      cend(b, i) = (b[i] >> 1) == this.nonNull ? vend(b, i+1) + int(vval(b, i+1)) : i+1 ; wfval(p) = rdable(p, 16) && wfslice(memstr(p))
@@ -474,16 +474,27 @@ package avro
 
 // ---------------------------------------------------------------- pointer.go
 
-//@ type *PointerCodec : typed = typed(this.Codec) ; dsz = 8 ; wfc = this != nil && this.Codec != nil && wfc(this.Codec) && 0 < dsz(this.Codec) ; \
+//@ type *PointerCodec : typed = typed(this.Codec) ; dsz = 8 ; wfc = this != nil && this.Codec != nil && wfc(this.Codec) && 0 <= dsz(this.Codec) ; \
 //@      cend(b, i) = cend(this.Codec, b, i) ; wfval(p) = rdable(p, 8) && (mem64(p) == 0 || wfval(this.Codec, ptr(mem64(p))))
 
 //@ func (*PointerCodec).Read
 //@   implements Codec.Read
 //@   let i0 := r.i, b0 := r.buf
 //@   requires wfRBS(r) && wfc(asiface(c)) && typed(asiface(c)) && p != nil && rawalloc(p, 8) && zeroed(p, 8)
-//@   ensures [C03,C05] mem64(p) != 0 && rawfresh(ptr(mem64(p)), dsz(c.Codec))
+//@   ensures [C03,C05] dsz(c.Codec) > 0 ==> mem64(p) != 0 && rawfresh(ptr(mem64(p)), dsz(c.Codec))
 //@   ensures [C03] tlen() == 2 && tkind(0) == evNEW && tkind(1) == evCR && ta(1) == tag(c.Codec) && tb(1) == uint64(data(c.Codec)) && tc(1) == mem64(p)
 //@   modifies r.i, M[p, 8], r.rb.sData, r.rb.types, type resourceType, BH[r.rb.sData]
+
+// pointerType = reflect.TypeOf(unsafe.Pointer(nil)), set by package initialisation
+//@ global pointerType != nil && data(pointerType) != nil && rtypesz(data(pointerType)) == 8
+
+//@ func (*PointerCodec).New
+//@   implements Codec.New
+//@   let i0 := r.i, b0 := r.buf
+//@   requires wfRBS(r)
+//@   ensures [C05,C20,C03,C04] wfRBS(r) && r.i == i0 && r.buf == b0 && sameobj(b0)
+//@   ensures [C05,C20,C11] res != nil && rawalloc(res, 8) && rawfresh(res, 8) && zeroed(res, 8)
+//@   modifies r.rb.types, type resourceType, M[0, 0]
 
 //@ func (*PointerCodec).Omit
 //@   implements Codec.Omit
@@ -690,9 +701,9 @@ package avro
 
 //@ func (Schema).Codec
 //@   requires out != nil
-//@   ensures [C05] err == nil ==> res != nil && wfc(res) && typed(res) && dsz(res) == rtypesz(outdesc(out)) && 0 <= dsz(res)
-//@   pure
-//@   trusted
+//@   ensures [C05,C06] err == nil ==> res != nil && wfc(res) && typed(res) && dsz(res) <= rtypesz(outdesc(out)) && 0 <= dsz(res)
+//@   uses kind_sizes(typedesc(tag(out)))
+//@   modifies heap cell:github.com/philpearl/avro.Codec.tag, heap cell:github.com/philpearl/avro.Codec.data
 
 //@ func (*ReadBuf).Reset
 //@   requires d != nil
@@ -754,13 +765,13 @@ package avro
 //@   loop 1 invariant rtyp != nil
 //@   loop 1 invariant rawalloc(p, rtypesz(rtyp))
 //@   loop 1 invariant codec != nil && wfc(codec) && 0 <= dsz(codec) && decoder != nil
-//@   loop 1 invariant dsz(codec) == rtypesz(rtyp)
+//@   loop 1 invariant dsz(codec) <= rtypesz(rtyp)
 //@   loop 1 decreases inlen() - inpos()
 //@   loop 2 invariant wfIn() && 0 <= i && tlen() >= 1 && lastNotFailedCB() && tkind(tlen()-1) != evRV
 //     exactly the declared number of records per block: i records have been decoded since the block was decompressed
 //@   loop 2 invariant [C07] (count >= 0 ==> i <= count) && i < 1<<61 && 3*i + 1 <= tlen() && tkind(tlen() - 1 - 3*i) == evENC
 //@   loop 2 invariant br != nil && wfRBS(br) && inlen() - inpos() < loopdec(1)
-//@   loop 2 invariant rtyp != nil && rawalloc(p, rtypesz(rtyp)) && codec != nil && wfc(codec) && dsz(codec) == rtypesz(rtyp) && 0 <= dsz(codec)
+//@   loop 2 invariant rtyp != nil && rawalloc(p, rtypesz(rtyp)) && codec != nil && wfc(codec) && dsz(codec) <= rtypesz(rtyp) && 0 <= dsz(codec)
 //@   loop 2 decreases count - i
 
 // ---------------------------------------------------------------- decompressors (C07: damage is reported, never silently accepted)
@@ -808,7 +819,7 @@ package avro
 //@ axiom block_size_exact(c ptr, b bytes, i int): vval(b, i) < 0 ==> items(c, b, vend(b, vend(b, i)), -vval(b, i)) == vend(b, vend(b, i)) + int(vval(b, vend(b, i)))
 
 //@ type *arrayCodec : dsz = 24 ; wfc = this != nil && this.itemCodec != nil && wfc(this.itemCodec) ; \
-//@      typed = this.itemType != nil && data(this.itemType) != nil && dsz(this.itemCodec) == isz(this) && 0 <= isz(this) && isz(this) < 1<<22 && typed(this.itemCodec) ; \
+//@      typed = this.itemType != nil && data(this.itemType) != nil && 0 <= dsz(this.itemCodec) && dsz(this.itemCodec) <= isz(this) && isz(this) < 1<<22 && typed(this.itemCodec) ; \
 //@      cend(b, i) = blk(this, b, i) ; wfval(p) = rdable(p, 24) && 0 <= memint(uintptr(p)+8, 8) && memint(uintptr(p)+8, 8) < 1<<40 \
 //@        && (forall k int :: 0 <= k && k < memint(uintptr(p)+8, 8) ==> wfval(this.itemCodec, mem64(p) + uint64(k * isz(this))))
 
@@ -869,7 +880,7 @@ package avro
 //@   loop 2 apply sub_range_disjoint(uint64(uintptr(p)), 24, hd0, uint64(hc0 * sz), uint64(hl0 * sz), uint64((hc0 - hl0) * sz)) when i < count && sz > 0
 //@   loop 2 apply sub_range_disjoint(uint64(uintptr(p)), 24, hd0, uint64(hc0 * sz), uint64((hl0 + 1) * sz), uint64((hc0 - hl0 - 1) * sz)) when i < count && sz > 0
 //@   loop 2 apply range_split(hd0 + uint64(hl0 * sz), uint64(sz), hd0 + uint64((hl0 + 1) * sz), uint64((hc0 - hl0 - 1) * sz), uint64((hc0 - hl0) * sz)) when i < count && sz > 0
-//@   loop 2 apply range_split(hd0 + uint64(hl0) * uint64(itemSize), uint64(dsz(rc.itemCodec)), hd0 + uint64((hl0 + 1) * sz), uint64((hc0 - hl0 - 1) * sz), uint64((hc0 - hl0) * sz)) when i < count && sz > 0
+//@   loop 2 apply range_after(hd0 + uint64(hl0) * uint64(itemSize), uint64(dsz(rc.itemCodec)), hd0 + uint64((hl0 + 1) * sz), uint64((hc0 - hl0 - 1) * sz)) when i < count && sz > 0
 //@   loop 2 apply sub_range_in(hd0, uint64(hc0 * sz), uint64(hl0) * uint64(itemSize), uint64(dsz(rc.itemCodec))) when i < count && sz > 0
 //@   loop 2 apply sub_range_in(hd0, uint64(hc0 * sz), uint64((hl0 + 1) * sz), uint64((hc0 - hl0 - 1) * sz)) when i < count && sz > 0
 //@   loop 2 apply sub_range_in(hd0, uint64(hc0 * sz), uint64(hl0 * sz), uint64((hc0 - hl0) * sz)) when i < count && sz > 0
@@ -1019,7 +1030,7 @@ package avro
 // INPUT ASSUMPTION, as for arrays: a declared block byte size is exact.  Used only by (*MapCodec).Skip.
 //@ axiom mblock_size_exact(c ptr, b bytes, i int): vval(b, i) < 0 ==> mitems(c, b, vend(b, vend(b, i)), -vval(b, i)) == vend(b, vend(b, i)) + int(vval(b, vend(b, i)))
 
-//@ type *MapCodec : dsz = 8 ; wfc = this != nil && this.valueCodec != nil && wfc(this.valueCodec) && 0 <= dsz(this.valueCodec) ; typed = this.rtype != nil && data(this.rtype) != nil && typed(this.valueCodec) ; \
+//@ type *MapCodec : dsz = 8 ; wfc = this != nil && this.valueCodec != nil && wfc(this.valueCodec) ; typed = this.rtype != nil && data(this.rtype) != nil && typed(this.valueCodec) && 0 <= dsz(this.valueCodec) ; \
 //@      cend(b, i) = mblk(this, b, i) ; wfval(p) = rdable(p, 8)
 
 //@ func (*MapCodec).Skip
@@ -1043,3 +1054,129 @@ package avro
 //@   requires m != nil && m.rtype != nil
 //@   ensures [C05,C06] res != nil
 //@   modifies M[0, 0]
+
+// ================================================================ build.go (C05, C20, C13, C06)
+// Decoder construction.  tdesc(typ) is the runtime type descriptor of the destination Go type (nil type: the value is
+// only ever skipped).  The common postcondition: a codec that is built is well-formed, and when a Go type is given
+// it is `typed` and decodes into at most rtypesz(tdesc) bytes -- the size of the destination field (C05).
+//@ spec built(res iface, err iface, typ iface) bool = err == nil ==> res != nil && wfc(res) && (typ != nil ==> typed(res) && 0 <= dsz(res) && dsz(res) <= rtypesz(data(typ)))
+
+//@ func buildNullCodec
+//@   ensures [C05,C13,C06] err == nil && res != nil && wfc(res) && typed(res) && dsz(res) == 0
+//@   pure
+
+//@ func buildBoolCodec
+//@   requires typ != nil ==> data(typ) != nil
+//@   ensures [C05,C13,C06] built(res, err, typ)
+//@   ensures [C05] (typ != nil && rkind(data(typ)) != 1) ==> err != nil
+//@   uses kind_sizes(data(typ))
+//@   pure
+
+//@ func buildLongCodec
+//@   requires typ != nil ==> data(typ) != nil
+//@   ensures [C05,C13,C06] built(res, err, typ)
+//@   ensures [C05] (typ != nil && rkind(data(typ)) != 2 && rkind(data(typ)) != 4 && rkind(data(typ)) != 5 && rkind(data(typ)) != 6) ==> err != nil
+//@   uses kind_sizes(data(typ))
+//@   pure
+
+//@ func buildIntCodec
+//@   requires typ != nil ==> data(typ) != nil
+//@   ensures [C05,C13,C06] built(res, err, typ)
+//@   pure
+
+//@ func buildFloatCodec
+//@   requires typ != nil ==> data(typ) != nil
+//@   ensures [C05,C13,C06] built(res, err, typ)
+//@   ensures [C05] (typ != nil && rkind(data(typ)) != 13) ==> err != nil
+//@   uses kind_sizes(data(typ))
+//@   pure
+
+//@ func buildDoubleCodec
+//@   requires typ != nil ==> data(typ) != nil
+//@   ensures [C05,C13,C06] built(res, err, typ)
+//@   ensures [C05] (typ != nil && rkind(data(typ)) != 13 && rkind(data(typ)) != 14) ==> err != nil
+//@   uses kind_sizes(data(typ))
+//@   pure
+
+//@ func buildStringCodec
+//@   requires typ != nil ==> data(typ) != nil
+//@   ensures [C05,C13,C06] built(res, err, typ)
+//@   ensures [C05] (typ != nil && rkind(data(typ)) != 24) ==> err != nil
+//@   uses kind_sizes(data(typ))
+//@   pure
+
+//@ func buildBytesCodec
+//@   requires typ != nil ==> data(typ) != nil
+//@   ensures [C05,C13,C06] built(res, err, typ)
+//@   ensures [C05] (typ != nil && (rkind(data(typ)) != 23 || rkind(relem(data(typ))) != 8)) ==> err != nil
+//@   uses kind_sizes(data(typ))
+//@   pure
+
+//@ func buildFixedCodec
+//@   requires typ != nil ==> data(typ) != nil
+//@   ensures [C05,C13,C06] built(res, err, typ)
+//@   ensures [C05] (typ != nil && (rkind(data(typ)) != 17 || rkind(relem(data(typ))) != 8 || rlen(data(typ)) != schema.Object.Size)) ==> err != nil
+//@   uses kind_sizes(data(typ))
+//@   pure
+
+// A registered builder is the caller's code.  C20: its result is what buildCodec returns for the type; that the codec
+// it builds fits the type it was registered for is the registrant's obligation (assumed here).
+//@ iface funcval github.com/philpearl/avro.CodecBuildFunc
+//@   ensures built(res, err, typ)
+//@   pure
+//@   emits REG(typ, res)
+
+// registrations are made with non-nil builder functions (Register is part of the caller's set-up, not of the input)
+//@ global forall t iface :: maphas(registry, t) ==> mapget(registry, t) != nil
+//@ func Register
+//@   requires f != nil
+//@   modifies map registry, type sync.RWMutex
+
+//@ func buildCodec
+//@   requires typ != nil ==> data(typ) != nil
+//@   ensures [C05,C13,C20,C06] built(res, err, typ)
+//     C20: a registration for typ governs (unless the schema is a union or null, or typ is a pointer, which are unwrapped
+//     first); without a registration no custom builder is consulted at this level
+//@   ensures [C20] (!streq(schema.Type, "union") && !streq(schema.Type, "null") && typ != nil && rkind(data(typ)) != 22 && maphas(registry, typ)) ==> tlen() == 1 && tkind(0) == evREG && res == ifaceof(tc(0), td(0))
+//@   ensures [C20] (typ == nil || !maphas(registry, typ)) ==> tlen() == 0
+//@   uses kind_sizes(data(typ))
+//@   modifies heap cell:github.com/philpearl/avro.Codec.tag, heap cell:github.com/philpearl/avro.Codec.data
+
+//@ func buildPointerCodec
+//@   requires typ != nil && data(typ) != nil && rkind(data(typ)) == 22
+//@   ensures [C05,C13,C20,C06] built(res, err, typ)
+//@   uses kind_sizes(data(typ))
+//@   modifies heap cell:github.com/philpearl/avro.Codec.tag, heap cell:github.com/philpearl/avro.Codec.data
+
+//@ func buildArrayCodec
+//@   requires typ != nil ==> data(typ) != nil
+//@   ensures [C05,C13,C20,C06] built(res, err, typ)
+//@   ensures [C05] (typ != nil && rkind(data(typ)) != 23) ==> err != nil
+//@   uses kind_sizes(data(typ))
+//@   uses kind_sizes(relem(data(typ)))
+//@   modifies heap cell:github.com/philpearl/avro.Codec.tag, heap cell:github.com/philpearl/avro.Codec.data
+
+//@ func BuildMapCodec
+//@   requires typ != nil ==> data(typ) != nil
+//@   ensures [C05,C13,C20,C06] built(res, err, typ)
+//@   ensures [C05] (typ != nil && (rkind(data(typ)) != 21 || rkind(rkey(data(typ))) != 24)) ==> err != nil
+//@   uses kind_sizes(data(typ))
+//@   modifies heap cell:github.com/philpearl/avro.Codec.tag, heap cell:github.com/philpearl/avro.Codec.data
+
+// Unions of a type and null are the supported shape.  General unions get a stub codec (its Write is unimplemented, a
+// known finding); the construction facts for that stub are assumed, not proved.
+//@ func buildUnionCodec
+//@   requires typ != nil ==> data(typ) != nil
+//@   ensures [C05,C13,C20,C06] (len(schema.Union) == 2 && (streq(schema.Union[0].Type, "null") || streq(schema.Union[1].Type, "null"))) ==> built(res, err, typ)
+//@   ensures [assume] built(res, err, typ)
+//@   uses kind_sizes(data(typ))
+//     the branch table of the stub codec for general unions is filled in place (fresh memory)
+//@   modifies heap cell:github.com/philpearl/avro.Codec.tag, heap cell:github.com/philpearl/avro.Codec.data
+//@   loop 1 invariant -1 <= rangeindex && rangeindex < len(schema.Union) && len(c.codecs) == len(schema.Union)
+//@   loop 1 decreases len(schema.Union) - rangeindex
+
+//@ func buildRecordCodec
+//@   requires typ != nil ==> data(typ) != nil
+//@   ensures [C05,C13,C20,C06] built(res, err, typ)
+//@   modifies heap cell:github.com/philpearl/avro.Codec.tag, heap cell:github.com/philpearl/avro.Codec.data
+//@   trusted
